@@ -150,3 +150,40 @@ def option_consulted(ctx: Ctx) -> None:
             else:
                 ctx.ok(R, f, f.node, 'every value-returning path consults the option', key=key)
     ctx.require(n >= 2, 'Quilt methods branching on _retain_labels')
+
+
+def key_order(ctx: Ctx) -> None:
+    R = 'I.quilt-key-order'
+    ctx.rule(R, 'a positional / label key that is a list, an integer array or a descending slice carries an order (and possibly repeats) which the Frame the Quilt stands for '
+             'honours: `frame.iloc[[1, 0]]` returns row 1 before row 0. Quilt._extract / _extract_array turn the key of the Quilt axis into a Boolean mask over the axis '
+             'map (`mask[key] = True`), a set of positions; unless ordered key kinds are told apart first (a test on list / ndarray / the slice step) and the result is '
+             'reordered, the selection comes back in axis order inside each component', floor=2)
+    prog = ctx.prog
+    n = 0
+    for m in ('_extract', '_extract_array'):
+        f = prog.method('Quilt', m, inherited=False)
+        masks = {a.targets[0].id for a in walk_local(f.node) if isinstance(a, ast.Assign) and isinstance(a.targets[0], ast.Name) and isinstance(a.value, ast.Call)
+                 and call_name(a.value) in ('np.full', 'np.zeros') and any(isinstance(x, ast.Constant) and x.value is False for x in ast.walk(a.value))}
+        stores = [a for a in walk_local(f.node) if isinstance(a, ast.Assign) and isinstance(a.targets[0], ast.Subscript) and isinstance(a.targets[0].value, ast.Name)
+                  and a.targets[0].value.id in masks and isinstance(a.value, ast.Constant) and a.value.value is True]
+        ctx.require(bool(stores), f'Quilt.{m} marks the selected positions in a Boolean mask')
+        from sfa import roles
+        ex = roles.Expander(f.node)
+        params = set(f.params)
+        for st in stores:
+            n += 1
+            key = f'Quilt.{m}:mask[key]'
+            kexp = ex.expand(st.targets[0].slice)
+            from_param = any(p in e for e in kexp for p in params if p.endswith('key'))
+            if not from_param:
+                ctx.ok(R, f, st, 'the mask is not addressed by the caller\'s key', key=key)
+                continue
+            kname = {x.id for x in ast.walk(st.targets[0].slice) if isinstance(x, ast.Name)}
+            ordered_handled = any(isinstance(i, ast.If) and i.lineno < st.lineno and any(isinstance(x, ast.Name) and (x.id in kname or x.id in params) for x in ast.walk(i.test))
+                                  and any(w in norm(i.test) for w in ('list', 'ndarray', 'KEY_MULTIPLE', 'KEY_ITERABLE', '.step')) for i in walk_local(f.node))
+            if ordered_handled:
+                ctx.ok(R, f, st, 'ordered key kinds are told apart before the key becomes a mask', key=key)
+            else:
+                ctx.bad(R, f, st, f'`{norm(st)}` turns the caller\'s key (`{sorted(kexp)[0][:50]}`) into a set of positions: the order (and repeats) of a list / array / '
+                        'descending-slice key is lost inside each component, unlike the Frame the Quilt stands for', key=key)
+    ctx.require(n >= 2, 'mask stores of Quilt._extract / _extract_array')
